@@ -121,6 +121,8 @@ func (e *Env) TempDir() string {
 	case 1:
 		if e.caseTag%16 == 1 {
 			name += " [v4]" // characters a glob pattern would interpret
+		} else {
+			name += " a*b?c\\d"
 		}
 	}
 	d := filepath.Join(e.Scratch, name)
